@@ -112,6 +112,58 @@ type RunObs struct {
 	TClass  string `json:"tclass,omitempty"`
 	TResult string `json:"tresult,omitempty"`
 	TMsg    string `json:"tmsg,omitempty"`
+	// the same run interrupted and resumed (round 7; first build, first plans): see IntrObs
+	Intr []IntrObs `json:"intr,omitempty"`
+	IFab string    `json:"ifab,omitempty"` // a lambda received, in one of them, a value of a type that nobody produced
+}
+
+// IntrObs: the run made once more on the same graph compiled with a checkpoint store, one lambda (or the lambda of
+// one sub graph node) asking for compose.InterruptAndRerun at its first execution, so that whatever its siblings of
+// that step answered -- already past the run-time check of their edges -- is parked in the channels of their
+// successors and written to the checkpoint; then resumed under the same checkpoint id through Invoke or Stream.
+// The resumed run is a run of a graph that compiled: it may not panic on a value of the wrong type either, and it
+// may not report as not assignable a value that the uninterrupted runs hand over.
+type IntrObs struct {
+	Node    int    `json:"node"`          // the interrupting node
+	Dag     bool   `json:"dag,omitempty"` // on the graph compiled with AllPredecessor
+	First   string `json:"first"`         // entry of the first run: invoke | stream
+	FClass  string `json:"fclass"`        // its class: interrupt, or what it ended in instead (then no resume)
+	Resume  string `json:"resume"`        // entry of the resume
+	RClass  string `json:"rclass"`        // class of the resumed run
+	RResult string `json:"rresult,omitempty"`
+	RMsg    string `json:"rmsg,omitempty"`
+}
+
+// the checkpoint store of the interrupted runs
+type memStore struct {
+	mu sync.Mutex
+	m  map[string][]byte
+}
+
+func (s *memStore) Get(ctx context.Context, id string) ([]byte, bool, error) {
+	s.mu.Lock()
+	defer s.mu.Unlock()
+	v, ok := s.m[id]
+	return v, ok, nil
+}
+
+func (s *memStore) Set(ctx context.Context, id string, cp []byte) error {
+	s.mu.Lock()
+	defer s.mu.Unlock()
+	s.m[id] = cp
+	return nil
+}
+
+func init() {
+	// the named types of the universe as checkpoint contents (a type that cannot be written only makes the first
+	// run of an interrupted one end in an error, which is not judged)
+	_ = compose.RegisterSerializableType[u.T1]("verif_c07_T1")
+	_ = compose.RegisterSerializableType[u.T2]("verif_c07_T2")
+	_ = compose.RegisterSerializableType[u.T3]("verif_c07_T3")
+	_ = compose.RegisterSerializableType[u.NM]("verif_c07_NM")
+	_ = compose.RegisterSerializableType[u.Box[int]]("verif_c07_BoxInt")
+	_ = compose.RegisterSerializableType[u.St1]("verif_c07_St1")
+	_ = compose.RegisterSerializableType[u.St2]("verif_c07_St2")
 }
 
 type LatObs struct {
@@ -252,6 +304,9 @@ func classify(p any, err error) (string, string) {
 		return "ok", ""
 	}
 	msg := err.Error()
+	if _, ok := compose.ExtractInterruptInfo(err); ok {
+		return "interrupt", msg // only the runs of an IntrObs have a node that asks for one
+	}
 	switch {
 	case strings.Contains(msg, "panic error"):
 		return "panic_rec", msg
@@ -293,6 +348,7 @@ func build(c *Case, plans []runPlan, extra bool, concPlan int) (bo BuildObs) {
 	}
 	cur := map[int]string{}  // emitted value per node for the current run
 	cur2 := map[int]string{} // second chunk per stream-producing node (multi-chunk runs only)
+	intr := map[int]bool{}   // the node that asks for InterruptAndRerun in the current run (interrupted runs only)
 	// every value a lambda receives in the current run (a run abandoned by the watchdog may still write)
 	type seenVal struct {
 		key int
@@ -326,6 +382,9 @@ func build(c *Case, plans []runPlan, extra bool, concPlan int) (bo BuildObs) {
 				if o.K == "node" {
 					key := o.Key
 					emit := func() any {
+						if intr[key] {
+							return u.Interrupt{}
+						}
 						if v2, ok := cur2[key]; ok {
 							return u.Multi{Vals: []any{valueOf(cur[key]), valueOf(v2)}}
 						}
@@ -421,13 +480,29 @@ func build(c *Case, plans []runPlan, extra bool, concPlan int) (bo BuildObs) {
 	}
 	// the same graph compiled once more for the all-predecessor (DAG) trigger mode: same types, other scheduling
 	var dagInv invoker
+	// and, for the interrupted runs, both once more with a checkpoint store
+	var cpInv, cpDagInv invoker
 	if extra {
 		lib.Recover(func() {
 			if di, err := g.Compile(ctx, compose.WithNodeTriggerMode(compose.AllPredecessor)); err == nil {
 				dagInv = di
 			}
 		})
+		store := &memStore{m: map[string][]byte{}}
+		lib.Recover(func() {
+			if ci, err := g.Compile(ctx, compose.WithCheckPointStore(store)); err == nil {
+				cpInv = ci
+			}
+		})
+		if dagInv != nil {
+			lib.Recover(func() {
+				if ci, err := g.Compile(ctx, compose.WithNodeTriggerMode(compose.AllPredecessor), compose.WithCheckPointStore(store)); err == nil {
+					cpDagInv = ci
+				}
+			})
+		}
 	}
+	cpSeq, intrDone := 0, map[string]bool{}
 	bo.Infer = map[string]string{}
 	if cb != nil && cb.info != nil {
 		for k, ni := range cb.info.Nodes {
@@ -531,15 +606,31 @@ func build(c *Case, plans []runPlan, extra bool, concPlan int) (bo BuildObs) {
 			}
 			return false
 		}
+		legitType := func(v any) bool {
+			t := reflect.TypeOf(v)
+			for _, l := range legitVals {
+				if reflect.TypeOf(l) == t {
+					return true
+				}
+			}
+			if keyed {
+				if t == reflect.TypeOf(keyedInner) || t == reflect.TypeOf(1) || t == reflect.TypeOf(map[string]any{}) {
+					return true
+				}
+			}
+			return false
+		}
 		cur_inv := inv
+		runCtx, noFab, intrNode := ctx, false, -1
 		var inputVal any = valueOf(pl.input)
 		once := func(stream bool) (class, result, msg string) {
 			ch := make(chan res, 1)
 			run := cur_inv
 			inputVal := inputVal
+			runCtx := runCtx
 			go func() {
 				var r res
-				r.p = lib.Recover(func() { r.out, r.err = run(ctx, inputVal, stream) })
+				r.p = lib.Recover(func() { r.out, r.err = run(runCtx, inputVal, stream) })
 				ch <- r
 			}()
 			seenMu.Lock()
@@ -569,6 +660,15 @@ func build(c *Case, plans []runPlan, extra bool, concPlan int) (bo BuildObs) {
 				// input, a value some lambda emits in this run, or a value a state handler returns
 				seenMu.Lock()
 				for _, sv := range seenVals {
+					if noFab {
+						// an interrupted run: what a lambda receives may have been through the checkpoint store, so only
+						// its dynamic type is judged (a marker type of the framework is a value nobody produced)
+						// (the interrupting node itself is run again on the zero value of its input type: not judged)
+						if sv.key != intrNode && !legitType(sv.v) && ro.IFab == "" {
+							ro.IFab = fmt.Sprintf("node %d received a value of type %T, which nobody produced", sv.key, sv.v)
+						}
+						continue
+					}
 					if !legit(sv.v) && ro.Fab == "" {
 						mode := "Invoke"
 						if stream {
@@ -587,6 +687,26 @@ func build(c *Case, plans []runPlan, extra bool, concPlan int) (bo BuildObs) {
 			return
 		}
 		ro.Class, ro.Result, ro.Msg = once(false)
+		// the lambdas (sub graph nodes included) that ran in it: the candidates for the interrupted runs below
+		var ranNodes []int
+		{
+			seenMu.Lock()
+			ranSet := map[int]bool{}
+			for _, sv := range seenVals {
+				ranSet[sv.key] = true
+			}
+			seenMu.Unlock()
+			okNode := map[int]bool{}
+			for i := range c.Ops {
+				if o := &c.Ops[i]; o.K == "node" && i < len(bo.Oks) && bo.Oks[i] && !okNode[o.Key] {
+					okNode[o.Key] = true
+					if o.Kind <= 4 && ranSet[o.Key] {
+						ranNodes = append(ranNodes, o.Key)
+					}
+				}
+			}
+			sort.Ints(ranNodes)
+		}
 		unreported := func(mode string) {
 			// The run-time check is exact: Invoke completed, so whatever a node that RAN handed to a successor over a
 			// data edge was assignable to the successor's input type.  A data edge is taken whenever its start node
@@ -673,6 +793,53 @@ func build(c *Case, plans []runPlan, extra bool, concPlan int) (bo BuildObs) {
 			if ro.DClass == "panic_esc" || ro.DClass == "panic_rec" || ro.DClass == "hang" {
 				ro.DClass += ": " + dmsg
 			}
+		}
+		// interrupted and resumed: the default plan, the first plan that completes, the first that completes with a nil
+		// value under way (a nil has a representation of its own in a checkpoint) and the first that ends in the type error;
+		// up to three of the lambdas that ran, each asking for InterruptAndRerun at its first execution, on the graph
+		// as compiled and on the one compiled with AllPredecessor; first run / resume through Invoke / Stream in turn
+		intrClass := ro.Class
+		if intrClass == "ok" && intrDone["ok"] {
+			hasNil := pl.input == "nil"
+			for _, v := range pl.emit {
+				hasNil = hasNil || v == "nil"
+			}
+			if hasNil {
+				intrClass = "ok-nil"
+			}
+		}
+		if cpInv != nil && len(ranNodes) > 0 && (len(bo.Runs) == 0 || ((ro.Class == "ok" || ro.Class == "type_err") && !intrDone[intrClass])) {
+			intrDone[intrClass] = true
+			noFab = true
+			for j := 0; j < len(ranNodes) && j < 3; j++ {
+				node := ranNodes[(c.Salt+j)%len(ranNodes)]
+				for di, ci := range []invoker{cpInv, cpDagInv} {
+					if ci == nil {
+						continue
+					}
+					for k := 0; k < 2; k++ {
+						// k = 0: resumed through Stream, k = 1: through Invoke; the entry of the first run alternates
+						firstStream, resumeStream := (c.Salt+len(bo.Runs)+j+di+k)%2 == 0, k == 0
+						io := IntrObs{Node: node, Dag: di == 1, First: "invoke", Resume: "invoke"}
+						if firstStream {
+							io.First = "stream"
+						}
+						if resumeStream {
+							io.Resume = "stream"
+						}
+						cpSeq++
+						cur_inv, runCtx = ci, u.WithCheckPointID(ctx, fmt.Sprintf("cp%d", cpSeq))
+						intr[node], intrNode = true, node
+						io.FClass, _, _ = once(firstStream)
+						delete(intr, node)
+						if io.FClass == "interrupt" {
+							io.RClass, io.RResult, io.RMsg = once(resumeStream)
+						}
+						ro.Intr = append(ro.Intr, io)
+					}
+				}
+			}
+			cur_inv, runCtx, noFab = inv, ctx, false
 		}
 		bo.Runs = append(bo.Runs, ro)
 	}
@@ -1239,6 +1406,40 @@ func (engine) Run(ci any) lib.Result {
 					fail("invoke-stream-result-differ", fmt.Sprintf("accepted graph: run %d (input %s, emit %v): Invoke returns %s, %s returns %s", k, r.Input, r.Emit, r.Result, e.name, e.result))
 				}
 			}
+			if r.IFab != "" {
+				fail("fabricated-value", fmt.Sprintf("accepted graph: run %d (input %s, emit %v), interrupted (a lambda asks for InterruptAndRerun at its first execution) and resumed from the checkpoint: %s", k, r.Input, r.Emit, r.IFab))
+			}
+			// interrupted and resumed: the resumed run is a run of a graph that compiled
+			for _, io := range r.Intr {
+				if io.FClass != "interrupt" {
+					continue
+				}
+				mode := "the graph as compiled"
+				alone := fmt.Sprintf("Invoke %s, Stream %s", r.Class, r.SClass)
+				if io.Dag {
+					mode = "the graph compiled with AllPredecessor"
+					alone = "Invoke " + r.DClass
+				}
+				what := fmt.Sprintf("accepted graph: run %d (input %s, emit %v) on %s with a checkpoint store, node %s asking for InterruptAndRerun at its first execution (first run through %s), resumed through %s", k, r.Input, r.Emit, mode, keyName(io.Node), io.First, io.Resume)
+				switch io.RClass {
+				case "panic_esc", "panic_rec", "hang":
+					same := io.RClass == r.Class || io.RClass == r.SClass
+					if io.Dag {
+						same = strings.HasPrefix(r.DClass, io.RClass)
+					}
+					if !same {
+						fail("resume-panic", fmt.Sprintf("%s: %s (%s); the uninterrupted run gives %s: a value that passed the run-time check of its edge before the interrupt reaches the node as a value of another type after it", what, io.RClass, io.RMsg, alone))
+					}
+				case "type_err":
+					clean := r.Class == "ok" && r.SClass == "ok"
+					if io.Dag {
+						clean = r.DClass == "ok"
+					}
+					if clean {
+						fail("resume-spurious-type-error", fmt.Sprintf("%s: run-time type error (%s) although the uninterrupted run completes (%s): every value is assignable to every consumer it reaches", what, io.RMsg, alone))
+					}
+				}
+			}
 			switch r.Class {
 			case "type_err":
 				if !typeErrJustified(c, b, r) {
@@ -1440,6 +1641,19 @@ func (engine) Run(ci any) lib.Result {
 	}
 	for k := range ecls {
 		tags = append(tags, "entry:"+k)
+	}
+	icls := map[string]bool{}
+	for _, r := range bo.Runs {
+		for _, io := range r.Intr {
+			if io.FClass != "interrupt" {
+				icls["first-"+io.FClass] = true
+			} else {
+				icls[io.Resume+"-"+io.RClass] = true
+			}
+		}
+	}
+	for k := range icls {
+		tags = append(tags, "intr:"+k)
 	}
 	mcls := map[string]bool{}
 	for _, r := range bo.Runs {
